@@ -136,13 +136,13 @@ structure Entry where
 def parseBase (hs ty : Nat) (r1 : Bytes) : Except Err (BaseRef × Bytes) :=
   if ty = Gen.Pack.ofsDelta then
     match takeMsb r1 with
-    | none => .error .format
+    | none => .error .other
     | some (raw2, r2) =>
       match decodeOfsRaw raw2 with
       | .error e => .error e
       | .ok d => .ok (.ofs d, r2)
   else if ty = Gen.Pack.refDelta then
-    if r1.length < hs then .error .format else .ok (.ref (r1.take hs), r1.drop hs)
+    if r1.length < hs then .error .other else .ok (.ref (r1.take hs), r1.drop hs)
   else .ok (.none, r1)
 
 /-- `unpack_object_at` on the suffix `buf` of the pack starting at the entry.  `inflate buf'` is zlib:
@@ -151,10 +151,10 @@ after the stream (`EOF before end of zlib stream` otherwise) and the declared si
 def parseEntry (inflate : Bytes → Option (Bytes × Bytes)) (hs : Nat) (buf : Bytes) :
     Except Err (Entry × Bytes) :=
   match takeMsb buf with
-  | none => .error .format
+  | none => .error .other                       -- AssertionError: unexpected end of pack data
   | some (raw, r1) =>
     match decodeObjHeaderRaw raw with
-    | none => .error .format
+    | none => .error .other
     | some (ty, size) =>
       match parseBase hs ty r1 with
       | .error e => .error e
